@@ -67,6 +67,15 @@ class InputFactory:
                 subs = [self.make(sort[1], f'{hint}{k}') for k in range(sort[2])]
                 return SymInput(sort, [s.value for s in subs], lambda m: [s.extract(m) for s in subs],
                                 sum([s.sizes for s in subs], []), sum([s.coords for s in subs], []))
+            if kind == 'distinct-set':
+                from .seqs import CSet
+                subs = [self.make(sort[1], f'{hint}{k}') for k in range(sort[2])]
+                terms = [s.value.term for s in subs]
+                if len(terms) > 1:
+                    I.assume(z3.Distinct(*terms))
+                cs = CSet([s.value for s in subs])
+                cs.exact = True
+                return SymInput(sort, cs, lambda m: {'set': [s.extract(m) for s in subs]})
             if kind == 'fn':
                 return self.make_fn(sort[1], hint, sort[2] if len(sort) > 2 else None)
             if kind == 'object':
@@ -160,6 +169,12 @@ class InputFactory:
         if sort == 'Obj':
             o = I.objmodel.fresh_obj(hint)
             return SymInput(sort, o, lambda m, t=o.term: self.obj_to_json(m, t))
+        if sort == 'Class0':
+            # a class whose constructor takes no arguments (usable as a grid-object factory)
+            om = I.objmodel
+            c = om.fresh_class(hint)
+            I.assume(z3.Or(*[c.term == om.cls_consts[x.name] for x in om.classes if not om.fields[x.name]]))
+            return SymInput(sort, c, lambda m, t=c.term: {'class': str(mval(m, t))})
         if sort == 'Class':
             c = I.objmodel.fresh_class(hint)
             return SymInput(sort, c, lambda m, t=c.term: {'class': str(mval(m, t))})
